@@ -269,6 +269,21 @@ pub fn name_classes() -> Vec<(&'static str, Vec<&'static str>)> {
     ]
 }
 
+/// names with one character at or above U+0100 whose LOW BYTE is an ASCII character (a byte-wise
+/// classification would take U+0142 for `B`): every low byte 0x21..0x7e at two code-point pages
+pub fn low_byte_names() -> Vec<String> {
+    let mut v = vec![];
+    for page in [0x100u32, 0x400] {
+        for lo in 0x21u32..0x7f {
+            if let Some(c) = char::from_u32(page + lo) {
+                v.push(format!("s{c}g"));
+            }
+        }
+    }
+    v.extend(["sygna\u{142}", "s\u{131}f\u{131}rla", "\u{441}\u{431}\u{440}\u{43e}\u{441}", "ready_\u{151}"].iter().map(|s| s.to_string()));
+    v
+}
+
 pub fn rename(t: &T, map: &[(String, String)]) -> T {
     let r = |x: &T| Box::new(rename(x, map));
     match t {
@@ -294,7 +309,10 @@ fn names_sweep(rep: &Report) {
         T::Read(Box::new(T::sym("m1_2", Ty::Arr(1, 2))), Box::new(T::sym("a1", Ty::Bv(1)))),
     ];
     let mut order = 0u64;
-    for (class, names) in name_classes() {
+    let lows = low_byte_names();
+    let mut classes: Vec<(&'static str, Vec<&str>)> = name_classes();
+    classes.push(("non-ascii-low-byte", lows.iter().map(|s| s.as_str()).collect()));
+    for (class, names) in classes {
         for n in names {
             for b in base.iter() {
                 order += 1;
